@@ -86,6 +86,17 @@ fn mutate_step(repo: &Path, r: &mut Rng, counter: &mut u64, published: &Mutex<Ve
         }
     };
     let pick = r.below(12);
+    mutate_step_inner(repo, pick, r, counter, published)
+}
+
+fn mutate_step_inner(repo: &Path, pick: u64, r: &mut Rng, counter: &mut u64, published: &Mutex<Vec<ObjectId>>) -> &'static str {
+    let publish = |spec: &str| {
+        if let Ok(t) = git::ok(repo, &["rev-parse", "--verify", "-q", spec]) {
+            if let Ok(id) = ObjectId::from_hex(t.trim().as_bytes()) {
+                published.lock().unwrap().push(id);
+            }
+        }
+    };
     match pick {
         0 | 1 => {
             // new loose objects + a commit that keeps them reachable
@@ -151,6 +162,74 @@ fn mutate_step(repo: &Path, r: &mut Rng, counter: &mut u64, published: &Mutex<Ve
     }
 }
 
+
+/// Directed single-threaded schedule: handle A has an index loaded but not its pack data, the pack is
+/// replaced on disk, handle B refreshes (which clears A's slot), then A looks up an object it finds in
+/// its stale index. The object is on disk throughout (old pack, then new pack).
+fn directed_stale_snapshot(ctx: &mut Ctx, r: &mut Rng) {
+    use gix_object::Exists;
+    let dir = ctx.dir("directed");
+    let mut spec = repogen::DagSpec::small(r);
+    spec.commits = 4 + r.usize(6);
+    let Ok(repo) = repogen::build_dag(&dir, r, &spec) else {
+        ctx.inconclusive("repo-gen failed");
+        return;
+    };
+    let _ = repo.repack(10, 10, &[]);
+    let Ok(objs) = repo.all_objects() else { return };
+    let ids: Vec<ObjectId> = objs.iter().filter_map(|(id, _, _)| ObjectId::from_hex(id.as_bytes()).ok()).collect();
+    let reachable: HashSet<String> = git::ok(&dir, &["rev-list", "--objects", "--all"]).map(|t| t.lines().filter_map(|l| l.split(' ').next().map(str::to_string)).collect()).unwrap_or_default();
+    let ids: Vec<ObjectId> = ids.into_iter().filter(|i| reachable.contains(&i.to_string())).collect();
+    if ids.is_empty() {
+        return;
+    }
+    let stable = r.chance(1, 3);
+    let store = match gix_odb::Store::at_opts(
+        objects_dir(&dir),
+        &mut None.into_iter(),
+        gix_odb::store::init::Options { slots: Default::default(), object_hash: gix_hash::Kind::Sha1, use_multi_pack_index: true, current_dir: Some(dir.clone()) },
+    ) {
+        Ok(s) => Arc::new(s),
+        Err(_) => return,
+    };
+    let mut a = store.to_cache_arc();
+    if stable {
+        a.prevent_pack_unload();
+    }
+    let b = store.to_cache_arc();
+    let x = ids[r.usize(ids.len())];
+    // A loads the index of the only pack, but no pack data
+    let seen = a.exists(&x);
+    // a new object makes the next full repack produce a differently named pack
+    let mut counter = 0;
+    let published = Mutex::new(Vec::new());
+    let _ = mutate_step_fixed(&dir, 2, r, &mut counter, &published);
+    let _ = git::run(&dir, &["repack", "-a", "-d", "-q"]);
+    let newest = published.lock().unwrap().last().copied();
+    // B misses in its loaded indices and refreshes from disk: the old pack's slot is cleared
+    let mut buf = Vec::new();
+    if let Some(n) = newest {
+        let _ = guard(|| b.try_find(&n, &mut buf).map(|o| o.is_some()));
+    }
+    ctx.eval();
+    ctx.count("directed_stale_snapshot_schedules");
+    let witness = json!({"schedule": "A.exists(x); git hash-object -w; git repack -a -d; B.try_find(new) (refresh); A.try_find(x)", "x": x.to_string(), "a_saw_x": seen, "stable_pack_ids": stable});
+    match guard(|| a.try_find(&x, &mut buf).map(|o| o.map(|d| (d.kind, d.data.len())))) {
+        Err(p) => ctx.panic_violation("Handle::try_find", &p, "stale-index-after-repack", witness),
+        Ok(Ok(Some((kind, len)))) => {
+            if !verify(&x, kind, &buf[..len]) {
+                ctx.violation("content|wrong-object-returned", "stale index lookup returned other content", witness);
+            }
+        }
+        Ok(Ok(None)) => ctx.violation("miss|core-object-not-found-with-refresh", &format!("object {x} present on disk throughout was reported as not found"), witness),
+        Ok(Err(e)) => ctx.count(&format!("err:{}", e.to_string().chars().take(60).collect::<String>())),
+    }
+}
+
+fn mutate_step_fixed(repo: &Path, pick: u64, r: &mut Rng, counter: &mut u64, published: &Mutex<Vec<ObjectId>>) -> &'static str {
+    mutate_step_inner(repo, pick, r, counter, published)
+}
+
 fn verify(id: &ObjectId, kind: gix_object::Kind, data: &[u8]) -> bool {
     fw::git_oid(&kind.to_string(), data) == id.as_bytes()
 }
@@ -160,6 +239,8 @@ pub fn run(ctx: &mut Ctx) {
     ctx.assume("the mutator uses real git commands, which make new packs/midx visible before removing old packs or loose objects");
     ctx.assume("Err results (IO errors, InsufficientSlots) are counted and reported, not treated as misses");
     gix_odb::verif::set_callback(Some(hook));
+    let directed = ctx.n(6, 200);
+    ctx.cases("directed-stale-snapshot", directed, |ctx, r| directed_stale_snapshot(ctx, r));
     let scenarios = ctx.n(6, 120);
     let mut signatures: HashSet<u64> = HashSet::new();
     let mut site_counts: std::collections::BTreeMap<&'static str, u64> = Default::default();
